@@ -90,7 +90,6 @@ func TestDecodeRequestRejects(t *testing.T) {
 		{"prepare v5 keyspace missing", "05 10 0000 09 00000009 00000001 'x' 00000001", "<keyspace>", nil},
 		{"prepare v5 keyspace without flag", "05 10 0000 09 0000000d 00000001 'x' 00000000 0002 'ks'", "4 trailing bytes", nil},
 		// EXECUTE
-		{"execute empty id", "04 00 0000 0a 00000005 0000 0001 00", "empty prepared statement id", nil},
 		{"execute truncated id", "04 00 0000 0a 00000003 0010 aa", "need 16 bytes, only 1 left", nil},
 		{"execute v1 with flags", "01 00 00 0a 00000009 0002 abcd 0000 0001 00", "trailing", nil},
 		{"execute v1 unset", "01 00 00 0a 0000000c 0002 abcd 0001 fffffffe 0001", "not defined before protocol v4", nil},
@@ -100,7 +99,6 @@ func TestDecodeRequestRejects(t *testing.T) {
 		{"batch in v1", "01 00 00 0d 00000005 00 0000 0001", "BATCH is not defined in protocol v1", nil},
 		{"batch type 3", "04 00 0000 0d 00000006 03 0000 0001 00", "unknown batch type 3", nil},
 		{"batch kind 2", "04 00 0000 0d 0000000e 00 0001 02 00000001 'x' 0000 0001 00", "unknown kind 2", nil},
-		{"batch empty prepared id", "04 00 0000 0d 0000000b 00 0001 01 0000 0000 0001 00", "empty prepared statement id", nil},
 		{"batch names flag", "04 00 0000 0d 00000006 00 0000 0001 40", "CASSANDRA-10246", nil},
 		{"batch keyspace flag in v4", "04 00 0000 0d 0000000a 00 0000 0001 80 0002 'ks'", "flag bits 0x80 are not defined", nil},
 		{"batch values flag", "04 00 0000 0d 00000006 00 0000 0001 01", "flag bits 0x1 are not defined", nil},
